@@ -18,7 +18,8 @@ func init() {
 		ID: "C11", Level: "exploration",
 		Rule: "case = one recorded full-application history (genesis bytes, block headers, signed transaction bytes, governance executions, signature-module messages; 15-35 blocks, thorough 30-70; many sub-distributors/shares/denominations so that map-ordered code has room to differ) replayed on (a) a second fresh application in the same process and (b) a fresh application in a separate OS process (new hash seeds, new address space; 2 processes in thorough). " +
 			"Oracle: byte equality of the per-height digest = sha256(BeginBlock events, every DeliverTx {code, codespace, data, gas used, events}, out-of-band execution results, EndBlock events and validator updates, Commit app hash). Log strings are left out (not hashed by Tendermint). " +
-			"Non-trivial: >=25 transactions, >=1 accepted update and >=4 distributor states in the history. Distinct by history hash. Thorough additionally replays a slice under the race detector (see DESIGN.md 1.7).",
+			"Non-trivial: >=25 transactions, >=1 accepted update and >=4 distributor states in the history. Distinct by history hash. Thorough additionally replays a slice under the race detector (see DESIGN.md 1.7)." +
+			" Variants: second application in the same process, CheckTx/Simulate first + queries, restart every few blocks, --x-crisis-skip-assert-invariants + own minimum-gas-prices, --inv-check-period, log_level debug; every 16th case runs the staged v1.2.0 upgrade twice on the same state and compares the stored bytes.",
 		Assumptions:   []string{"replicas are driven serially, as Tendermint drives ABCI"},
 		Cases:         func(t string) int { return tierN(t, 96, 1500) },
 		MinNontrivial: func(t string) int { return tierN(t, 8, 200) },
